@@ -30,9 +30,9 @@ ASSUMPTIONS = [
     "inside lazily evaluated bodies only the public oracle is compared (event order is unobservable there)",
 ]
 MIN_COUNTERS = {
-    "reads_observed": {"quick": 5000, "thorough": 100000},
-    "toplevel_stream_checked": {"quick": 2000, "thorough": 40000},
-    "trace_compared": {"quick": 1000, "thorough": 20000},
+    "reads_observed": {"quick": 50000, "thorough": 500000},
+    "toplevel_stream_checked": {"quick": 30000, "thorough": 300000},
+    "trace_compared": {"quick": 8000, "thorough": 80000},
 }
 UNIT_TIMEOUT = 1200
 
